@@ -91,10 +91,29 @@ class PushOrder(Domain):
                         return 'CLIENT'
                     for d in self.model.local_defs(fi, a0.id):
                         if isinstance(d, tuple) and d[0] == 'iter' and \
-                                isinstance(d[1], ast.Name) and \
-                                d[1].id == self.client_param:
+                                self.client_path(d[1]):
                             return 'CLIENT'
         return None
+
+    def client_path(self, e, depth=0):
+        """Is e the client parameter, a 1-tuple of it, or a local whose
+        every definition is one of those (the client path in the order
+        given)?"""
+        if depth > 3:
+            return False
+        if isinstance(e, ast.Name):
+            if e.id == self.client_param:
+                return True
+            defs = [d for d in self.model.local_defs(self.fi, e.id)]
+            return bool(defs) and all(
+                not isinstance(d, (str, tuple)) and
+                self.client_path(d, depth + 1) for d in defs)
+        if isinstance(e, ast.Tuple) and len(e.elts) == 1:
+            return self.client_path(e.elts[0], depth + 1)
+        if isinstance(e, ast.IfExp):
+            return self.client_path(e.body, depth + 1) and \
+                self.client_path(e.orelse, depth + 1)
+        return False
 
     def effects(self, stmt, st):
         for n in ast.walk(stmt):
@@ -146,8 +165,7 @@ def rule_push_order(model):
         if isinstance(n, ast.For) and any(
                 isinstance(c, ast.Call) and dom.classify(c) == 'CLIENT'
                 for c in ast.walk(n)):
-            direct = isinstance(n.iter, ast.Name) and \
-                n.iter.id == dom.client_param
+            direct = dom.client_path(n.iter)
             r.instance(fi.where, f'for {norm(n.target)} in {norm(n.iter)}',
                        'client path order')
             if not direct:
@@ -155,7 +173,7 @@ def rule_push_order(model):
                           'client tuple is not pushed in the order given '
                           '(the last client must be searched first)',
                           node=n, ctx=fi)
-    r.require_floor(8)
+    r.require_floor(6)
     return r
 
 
@@ -431,10 +449,14 @@ def rule_direction(model):
     pop = T.methods.get('_pop')
     if push is None or pop is None:
         raise AnalysisError('TemplateDict._push/_pop not found')
+    pa = {'self._data'} | {
+        n.targets[0].id for n in own_nodes(push.node)
+        if isinstance(n, ast.Assign) and isinstance(n.targets[0], ast.Name)
+        and norm(n.value) == 'self._data'}
     app = [n for n in own_nodes(push.node) if isinstance(n, ast.Call)
            and isinstance(n.func, ast.Attribute)
            and n.func.attr == 'append' and
-           norm(n.func.value) == 'self._data']
+           norm(n.func.value) in pa]
     r.instance(push.where, push.node.body[-1], 'append' if app else '?')
     if not app:
         r.finding(push.where, push.node.body[-1], '_push does not append to '
@@ -462,11 +484,57 @@ def rule_direction(model):
                 r.finding(f.where, 'lookup loop', 'lookup does not stop at '
                           'the first source defining the name',
                           node=f.node, ctx=f)
-    src = ast.unparse(pop.node)
-    tail = ('self._data[i:l_] = []' in src or 'del self._data[' in src or
-            'self._data.pop()' in src)
-    front = 'pop(0)' in src or 'self._data[:i]' in src or \
-        'self._data[0:' in src
+    # _pop: entries are removed from the end of the stack list
+    aliases = {'self._data'}
+    lens = set()
+    for n in own_nodes(pop.node):
+        if isinstance(n, ast.Assign) and isinstance(n.targets[0], ast.Name):
+            if norm(n.value) in aliases:
+                aliases.add(n.targets[0].id)
+            if isinstance(n.value, ast.Call) and \
+                    isinstance(n.value.func, ast.Name) and \
+                    n.value.func.id == 'len' and \
+                    norm(n.value.args[0]) in aliases:
+                lens.add(n.targets[0].id)
+    tail = front = False
+    for n in own_nodes(pop.node):
+        sl = None
+        if isinstance(n, ast.Delete):
+            for t in n.targets:
+                if isinstance(t, ast.Subscript) and \
+                        norm(t.value) in aliases:
+                    sl = t.slice
+        elif isinstance(n, ast.Assign) and \
+                isinstance(n.targets[0], ast.Subscript) and \
+                norm(n.targets[0].value) in aliases and \
+                isinstance(n.value, ast.List) and not n.value.elts:
+            sl = n.targets[0].slice
+        elif isinstance(n, ast.Call) and isinstance(n.func, ast.Attribute) \
+                and n.func.attr == 'pop' and norm(n.func.value) in aliases:
+            if not n.args:
+                tail = True
+            elif isinstance(n.args[0], ast.Constant) and \
+                    n.args[0].value == 0:
+                front = True
+            else:
+                tail = True
+        if sl is not None:
+            if isinstance(sl, ast.Slice):
+                up_ok = sl.upper is None or (
+                    isinstance(sl.upper, ast.Name) and sl.upper.id in lens)
+                lo_bad = sl.lower is None or (
+                    isinstance(sl.lower, ast.Constant) and
+                    sl.lower.value == 0)
+                if up_ok and not lo_bad:
+                    tail = True
+                else:
+                    front = True
+            elif isinstance(sl, ast.UnaryOp) or (
+                    isinstance(sl, ast.BinOp) and
+                    isinstance(sl.op, ast.Sub)):
+                tail = True
+            else:
+                front = True
     r.instance(pop.where, '_pop body', 'tail' if tail and not front else '?')
     if not tail or front:
         r.finding(pop.where, '_pop body', '_pop does not remove entries '
